@@ -84,6 +84,8 @@ func applyServiceExtends(ctx context.Context, name string, services map[string]a
 		processor PostProcessor
 		// services the base is looked up in: those of the referenced file, if any
 		baseServices = services
+		// !reset / !override tags that apply while resolving the base: those of the file declaring it
+		basePost = post
 	)
 
 	// a service is identified by the file it is declared in and its name
@@ -98,10 +100,12 @@ func applyServiceExtends(ctx context.Context, name string, services map[string]a
 			return nil, fmt.Errorf("services.%s.extends.file must be a string", name)
 		}
 		baseServices, processor, err = getExtendsBaseFromFile(ctx, name, ref, filename, refFilename, opts, tracker)
-		post = append(post, processor)
 		if err != nil {
 			return nil, err
 		}
+		// tags are recorded by service name: those of the referenced file concern its own services,
+		// not a service of this file that happens to bear the same name
+		basePost = []PostProcessor{processor}
 		// services of the referenced file are resolved in the context of that file
 		ctx = context.WithValue(ctx, consts.ComposeFileKey{}, refFilename)
 	} else {
@@ -112,7 +116,7 @@ func applyServiceExtends(ctx context.Context, name string, services map[string]a
 	}
 
 	// recursively apply `extends`
-	base, err = applyServiceExtends(ctx, ref, baseServices, opts, tracker, post...)
+	base, err = applyServiceExtends(ctx, ref, baseServices, opts, tracker, basePost...)
 	if err != nil {
 		return nil, err
 	}
